@@ -104,6 +104,21 @@ def classify_extreme(case, out):
         e, amax = dbl(d["pe"]), dbl(d["pamax"])
         if e != e or e == float("inf") or amax * 2 > big or (amax + 65536 * 2 * e) > big:
             return "fd_range_overflow"
-        if 0 <= e < tiny:
+        if 0 <= e < tiny and ty == 1:
+            # double kernels only: the float kernels were surveyed with bounds down to 2^-146 on data of every scale (1-D..4-D, with and
+            # without regression) and keep the bound there
             return "fd_denormal_bound"
     return None
+
+
+def outside_model_domain(case, out):
+    """inputs on which the transcribed kernels leave what the model gives a meaning to: (int) of an infinite or out-of-range value (undefined
+    in C; the hardware returns INT_MIN) when 1/e or a range overflows -- a limit of the model, not a listed finding"""
+    if classify_extreme(case, out):
+        return True
+    p = parse_rt(case)
+    d = kv(out.split(" | ", 1)[1] if (out.startswith("DIED") and " | " in out) else out)
+    if p["ty"] == 0 and "pe" in d:
+        e = dbl(d["pe"])
+        return 0 <= e < 1.1754944e-38
+    return False
